@@ -204,7 +204,7 @@ class TwoFingerIntersector(Intersector):
         trace1 = traces[1]
 
         # Throw away the header, since we don't need it
-        if not self.started:
+        if not self.started and trace0:
             self.started = True
 
             self.num_ranks = (len(trace0[0]) - 1) // 2
